@@ -1195,7 +1195,7 @@ void eval_instruction (const char *p) {
                       break;
                     case T_STRING:
                       {
-                        char buff[40];
+                        char buff[320];	/* "%lf" of DBL_MAX needs 309 digits + ".000000" + sign + NUL */
 
                         sprintf (buff, "%lf", (sp + 1)->u.real);
                         EXTEND_SVALUE_STRING (sp, buff, "f_add: 2");
@@ -1249,7 +1249,7 @@ void eval_instruction (const char *p) {
                       }		/* end of T_NUMBER + T_STRING */
                     case T_REAL:
                       {
-                        char buff[40];
+                        char buff[320];	/* "%lf" of DBL_MAX needs 309 digits + ".000000" + sign + NUL */
 
                         sprintf (buff, "%lf", (sp - 1)->u.real);
                         SVALUE_STRING_ADD_LEFT (buff, "f_add: 3");
@@ -1294,7 +1294,7 @@ void eval_instruction (const char *p) {
                 }
               else if (sp->type == T_REAL)
                 {
-                  char buff[40];
+                  char buff[320];	/* "%lf" of DBL_MAX needs 309 digits + ".000000" + sign + NUL */
 
                   sprintf (buff, "%lf", sp->u.real);
                   EXTEND_SVALUE_STRING (lval, buff, "f_add_eq: 2");
